@@ -547,8 +547,10 @@ fn check_case(cx: &mut Cx, seed: u64)
 		let f = run.file.as_ref().unwrap();
 		format!("ok len={} fnv={:016x}", f.len(), fnv(FNV_INIT, f))
 	}
-	else if run.stderr.contains("Checksum would overwrite existing data") {"err:crc-overwrite".to_owned()}
+	// no file: the wording on stderr is not looked at; whether the PROGRAM assembles is established in-process with the crate
+	// (same directory); a program that assembles and is still refused was refused by the post-processing (checksum word occupied)
 	else if run.stderr.is_empty() {"err:empty".to_owned()}
+	else if matches!(crate::asm::run_real(&dir), Ok(o) if o.close_err.is_none() && o.finalize) {"err:crc-overwrite".to_owned()}
 	else {"asm-failed".to_owned()};
 	cx.report.hit(&format!("outcome: {}", if produced {"file written"} else {&imp}));
 	cx.report.case(if produced {Some(&imp)} else {None});
@@ -591,6 +593,69 @@ fn check_case(cx: &mut Cx, seed: u64)
 	}
 }
 
+/// every entry of `dir` with its content (sub-directories are not used by these cases)
+fn dir_snapshot(dir: &Path) -> BTreeMap<String, Vec<u8>>
+{
+	let mut m = BTreeMap::new();
+	if let Ok(rd) = std::fs::read_dir(dir)
+	{
+		for e in rd.flatten().filter(|e| !e.file_name().to_string_lossy().ends_with(".profraw")) {m.insert(e.file_name().to_string_lossy().into_owned(), std::fs::read(e.path()).unwrap_or_default());}
+	}
+	m
+}
+
+/// command lines the generated cases do not use: no argument at all, no output argument (valid and failing program),
+/// an input file that does not exist. What C18 cares about: nothing is created or modified unless a program assembled AND an
+/// output file was named; a failure is announced on stderr. Input: `cli <name>`.
+fn cli_case(cx: &mut Cx, name: &str)
+{
+	let input = format!("cli {name}");
+	let dir = cx.work.join("trias-cli");
+	let _ = std::fs::remove_dir_all(&dir);
+	std::fs::create_dir_all(&dir).unwrap();
+	let good = ".addr 0x20000000;\nstart: MOVS R0, 1;\n.du32 start;\nBX LR;\n";
+	let bad = ".addr 0x20000000;\nMOVS R0, 256;\n";
+	// (arguments, main.asm, pre-existing out.uf2, must say something on stderr, stdout text)
+	let (args, main, want_stderr, want_stdout): (Vec<&str>, Option<&str>, bool, Option<&str>) = match name
+	{
+		"noargs" => (vec![], Some(good), true, None),
+		"noout-ok" => (vec!["main.asm"], Some(good), false, Some("Assembled successfully")),
+		"noout-fail" => (vec!["main.asm"], Some(bad), true, None),
+		"noout-empty" => (vec!["main.asm"], Some("// nothing\n"), false, None),
+		"missing-input" => (vec!["nosuch.asm", "out.uf2"], Some(good), true, None),
+		"fail-with-out" => (vec!["main.asm", "out.uf2"], Some(bad), true, None),
+		_ => {cx.report.oracle_fail(input, "unrecognised replay input"); return;},
+	};
+	if let Some(m) = main {std::fs::write(dir.join("main.asm"), m).unwrap();}
+	let sentinel = b"previous output".to_vec();
+	std::fs::write(dir.join("out.uf2"), &sentinel).unwrap();
+	let before = dir_snapshot(&dir);
+	let out = Command::new(repo_bin("trias")).args(&args).current_dir(&dir).output().expect("cannot run trias");
+	let after = dir_snapshot(&dir);
+	let (stdout, stderr) = (String::from_utf8_lossy(&out.stdout).into_owned(), String::from_utf8_lossy(&out.stderr).into_owned());
+	cx.report.case(Some(&format!("{name} {:?} {}", out.status.code(), !stdout.trim().is_empty())));
+	cx.report.hit(&format!("cli {name}: exit status {:?}", out.status.code()));
+	{
+		use std::os::unix::process::ExitStatusExt;
+		if let Some(sig) = out.status.signal() {cx.report.oracle_fail(input.clone(), format!("trias {args:?} was killed by signal {sig}"));}
+	}
+	if after != before
+	{
+		let changed: Vec<&String> = after.keys().filter(|k| before.get(*k) != after.get(*k)).chain(before.keys().filter(|k| !after.contains_key(*k))).collect();
+		cx.report.oracle_fail(input.clone(), format!("trias {args:?} created, modified or removed {changed:?} although no program was assembled into a named output file"));
+	}
+	if want_stderr && stderr.trim().is_empty() {cx.report.oracle_fail(input.clone(), format!("trias {args:?} failed silently (status {:?}, nothing on stderr)", out.status.code()));}
+	match want_stdout
+	{
+		// the wording is free; success must be announced and the exit status must say so
+		Some(_) => if stdout.trim().is_empty() || !out.status.success() {cx.report.oracle_fail(input.clone(), format!("trias {args:?}: status {:?}, stdout {stdout:?}; expected success and an announcement of it", out.status.code()));},
+		None => if !stdout.trim().is_empty() {cx.report.oracle_fail(input.clone(), format!("trias {args:?} reports on stdout although nothing was assembled: {stdout:?}"));},
+	}
+	let _ = std::fs::remove_dir_all(&dir);
+}
+
+const CLI_CASES: [&str; 6] = ["noargs", "noout-ok", "noout-fail", "noout-empty", "missing-input", "fail-with-out"];
+
 pub fn run(_id: &str, cx: &mut Cx)
 {
 	cx.report.rule = "generated projects on disk (main file with .addr regions in shuffled source order, region labels referenced by .du32 — also forward —, .du8/.du16/.du32/.dhex/.dstr, instructions, \
@@ -605,6 +670,7 @@ non-trivial = an output file was written; distinct = distinct output files".to_o
 	}
 	if let Some(input) = cx.replay.clone()
 	{
+		if let Some(name) = input.strip_prefix("cli ") {cli_case(cx, name); return;}
 		match input.strip_prefix("gen ").and_then(|s| u64::from_str_radix(s, 16).ok())
 		{
 			Some(seed) => check_case(cx, seed),
@@ -612,6 +678,7 @@ non-trivial = an output file was written; distinct = distinct output files".to_o
 		}
 		return;
 	}
+	for name in CLI_CASES {cli_case(cx, name);}
 	let n = if cx.thorough() {20_000} else {1_500};
 	for _ in 0..n
 	{
